@@ -19,6 +19,7 @@ import (
 	"encoding/json"
 	"fmt"
 	"os"
+	"runtime/debug"
 	"syscall"
 	"time"
 
@@ -106,6 +107,9 @@ func assembleEnc(buf []byte, enc [][]byte, mask uint32) []byte {
 
 func run(c *fw.Ctx) {
 	r := &runner{c: c, reported: map[string]int{}}
+	// the live heap is tiny; keep the garbage of 16 concurrent workers small even when the GC is starved of CPU
+	debug.SetGCPercent(50)
+	debug.SetMemoryLimit(256 << 20)
 	if dn, err := os.OpenFile(os.DevNull, os.O_WRONLY, 0); err == nil {
 		os.Stdout = dn // pbToTransaction prints "Bad sign ..." for every odd-length signature
 	}
